@@ -39,7 +39,7 @@ DECIDING = ["step:dagger", "step:controlled", "step:power_int", "step:power_frac
 EXHAUSTIVE = {"k7_targets": "the listed witnesses of known finding K7", "pairs_exh": "all 81 ordered pairs of the modifiers {dagger, controlled(1), controlled(2), "
                            "power(-1), power(0), power(2), power(1/2), power(1/3), exp} on each base gate of a fixed list "
                            "(3 base gates quick / 8 thorough)"}
-BUDGET = {"quick": (4, 30, 700), "thorough": (16, 220, 100000)}
+BUDGET = {"quick": (4, 30, 110), "thorough": (16, 220, 100000)}
 CASE_TIMEOUT = {"quick": 12, "thorough": 40}
 K1 = "K1-dagger-of-fractional-power"
 K7 = "K7-fractional-power-of-unevaluated-root"
